@@ -111,6 +111,17 @@ func props() map[string]Prop {
 				"'eventually acknowledged' is judged as: acknowledged within the scenario's rounds plus one extra round after a failed request",
 			},
 		},
+		{
+			ID: "C05", Level: "fault_enumeration",
+			Units: []Unit{
+				{Name: "counter", Pkg: "internal/counter", Harness: "internal_counter", Run: "^TestVerifC05", Instrument: append(append([]string{}, counterInstr...), "internal/telemetry"), Timeout: 40 * time.Minute},
+			},
+			Assume: []string{
+				"faults are injected at the instrumented package-level os/syscall calls and *os.File methods of internal/counter, internal/mmap and internal/telemetry",
+				"'bounded number of steps' = loop-tick budget 64*mapping size + 2e6 per host call",
+				"truncation of a file that is currently mapped is outside the quantifier and not generated",
+			},
+		},
 	}
 	m := map[string]Prop{}
 	for _, p := range ps {
